@@ -109,7 +109,9 @@ theorem delete_PA {n : Int} (c : Ctx) (h : PA n c) : OutcomeP (PA n) (opDelete c
     · rename_i i _ _
       have h1 : AssocOK n (c.seg.upd i fun sl => sl.setDeleted true) := AssocOK.updKeep h _ _ (fun _ => ⟨rfl, rfl, rfl⟩)
       have h2 := (detach_assoc (unlink_assoc h1 i) i).addGlyphs (-1)
-      split <;> exact h2
+      show AssocOK n (Ctx.backOnto _ _).seg
+      rw [backOnto_seg]
+      exact h2
 
 theorem linkAtEnd_assoc {n : Int} {s : Seg} (h : AssocOK n s) (k : Nat) : AssocOK n (s.linkAtEnd k) := by
   unfold Seg.linkAtEnd
